@@ -19,17 +19,20 @@ Oracles    : independent of the model, evaluated on the implementation's output 
              O2 frame                  -- across one operation no other sibling of any kind under any live node changes,
                 appears or disappears;
              O3 ideal tree             -- a Python dict-of-dicts reference (class Ref) predicts every status and every view.
-Findings   : probes exhibit what the unchanged tree does wrong (or does by design) and go through ck.finding(key):
+Corpus     : corpus/C04/*.json -- the witnesses of the four defects this property found and /repo repaired (a8c4c3e
+             cg_multifam_write id, 63c639c cgi_free_particle, 627245e ParticleIterativeData_t block, e5d5bea label arms before
+             reserved names).  They run FIRST and must pass; a regression re-fires VIOLATION under the original key
+             (multifam-overwrite-stale-id, pzone-close-frees-first-integral-repeatedly, delete-no-dispatch-block:<parent>,
+             delete-arm-shadowed:<parent>/<label>:<name>) and the random histories then avoid that trigger.
+Findings   : what the tree does by design or cannot repair cheaply goes through ck.finding(key) (listed as known):
                index-after-overwrite-nonlast:<label>      by design: the slot is re-used, the database appends
                index-after-reopen-sorted:<label>          by design: cgi_read_base orders (particle) zones by name
                failed-write-leaves-phantom                a write colliding with a sibling of another label fails after
                                                           the mirror was extended
-               multifam-overwrite-stale-id                cg_multifam_write never stores the id of the node it creates
-               pzone-close-frees-first-integral-repeatedly  cgi_free_particle frees integral[0] nintegrals times
-               delete-arm-shadowed:<parent>/<label>:<name>  a name-selected arm precedes the label arm (from Mirror.shadowed)
-               delete-no-dispatch-block:<parent>          cg_delete_node has no block for a reachable parent label
-             the random histories avoid the triggers of the last four only while the probe still fails; everything
-             else -- any other index difference included -- is a VIOLATION.  See notes/C04.md.
+             Whatever Mirror.shadowed / parents_without_block / unsound_kinds / bad_nrows flag on the regenerated tables
+             (all empty now: C04_no_shadowed_arm, C04_every_position_has_a_block, C04_no_stale_id_rows) is replayed on the
+             library and reported under delete-arm-shadowed:... / delete-no-dispatch-block:...; everything else -- any other
+             index difference included -- is a VIOLATION.  See notes/C04.md.
 """
 import hashlib, json, os, re
 import vlib
